@@ -1819,4 +1819,33 @@ func c11FullOnlyOnJoin(c *Ctx) {
 	if n == 0 {
 		c.fail("C11.R11", "Delta-call-sites", token.NoPos, "no call of clusterState.Delta found")
 	}
+	// C11.R12: inside Delta the flag means what the callers think it means: the
+	// arm that pushes a node from version 0 although the asker did not name it
+	// runs only under fullDigest == true.
+	dfn := p.Func(gsPkg, "clusterState.Delta")
+	if dfn == nil {
+		c.fail("C11.anchor", "clusterState.Delta", token.NoPos, "not found")
+		return
+	}
+	fs := computeFacts(dfn)
+	m := 0
+	allInstrs(dfn, func(i ssa.Instruction) {
+		cl, ok := i.(*ssa.Call)
+		if !ok || !strings.HasSuffix(commonName(&cl.Call), "clusterState).deltaEntry") || len(cl.Call.Args) < 3 {
+			return
+		}
+		if _, fromDigest := loadedField(cl.Call.Args[2], p.Field(gsPkg, "digestEntry", "Version")); fromDigest {
+			return // the answer to a node the asker named, from the version it named
+		}
+		m++
+		underFlag := anyFact(fs.At(cl.Block()), func(f Fact) bool {
+			pv, ok := f.V.(*ssa.Parameter)
+			return ok && f.T && pv.Type().Underlying() == types.Typ[types.Bool]
+		})
+		c.check(underFlag, "C11.R12", fnName(dfn)+"/unnamed-nodes-only-under-fullDigest", cl.Pos(), "a node the asker did not name (or a version it did not name) is pushed only when the fullDigest parameter is true",
+			"Delta pushes state the asker did not ask for although the digest was not declared complete (facts: "+factStrings(fs.At(cl.Block()))+"): a node the asker has expired is handed back to it by every ordinary gossip round")
+	})
+	if m == 0 {
+		c.note("C11.R12: Delta has no unnamed-node arm")
+	}
 }
